@@ -87,11 +87,22 @@ func (fi *FuncInfo) guardsUpTo(n ast.Node, top ast.Node) []Cond {
 // last result (`ok` true / `err` nil), the conditions under which the helper
 // reaches its one successful return.
 func (fi *FuncInfo) withHelperSuccess(cs []Cond) []Cond {
-	if fi.C == nil || len(fi.C.successRet)+len(fi.C.failureRet) == 0 {
+	if fi.C == nil || len(fi.C.successRet)+len(fi.C.failureRet)+len(fi.C.searchRet) == 0 {
 		return cs
 	}
 	out := cs
 	for _, g := range cs {
+		// `i >= 0` on the result of a linked search helper: the conditions under which it reports a find
+		if v, found, ok := fi.searchTest(g); ok && found {
+			if d := fi.singleDef(v); d != nil {
+				if call, isCall := ast.Unparen(d.rhs).(*ast.CallExpr); isCall {
+					if S, h := fi.C.searchRet[call], fi.C.linked[call]; S != nil && h != nil {
+						out = append(out, h.GuardsWithin(S, h.Decl)...)
+					}
+				}
+			}
+			continue
+		}
 		var v *types.Var
 		failed := false
 		if g.Kind == "bool" {
@@ -432,4 +443,34 @@ func negatedOperands(e ast.Expr) []ast.Expr {
 		return []ast.Expr{ast.Unparen(u.X)}
 	}
 	return nil
+}
+
+// searchTest recognises a comparison of a variable with the not-found value
+// of a position search: found reports whether the condition (with its
+// polarity) says that something was found (v >= 0, v != -1, v > -1).
+func (fi *FuncInfo) searchTest(g Cond) (v *types.Var, found, ok bool) {
+	if g.Kind != "bool" {
+		return nil, false, false
+	}
+	be, isB := ast.Unparen(g.Expr).(*ast.BinaryExpr)
+	if !isB {
+		return nil, false, false
+	}
+	v = fi.varOf(be.X)
+	k, isC := fi.constInt(be.Y)
+	if v == nil || !isC {
+		return nil, false, false
+	}
+	switch {
+	case be.Op == token.GEQ && k == 0, be.Op == token.NEQ && k == -1, be.Op == token.GTR && k == -1:
+		found = true
+	case be.Op == token.LSS && k == 0, be.Op == token.EQL && k == -1, be.Op == token.LEQ && k == -1:
+		found = false
+	default:
+		return nil, false, false
+	}
+	if g.Neg {
+		found = !found
+	}
+	return v, found, true
 }
